@@ -31,7 +31,7 @@ CASE_TIMEOUT = 900
 MIN_SHARD = 1
 SHARD_TIMEOUT = {"quick": 1500, "thorough": 7200}
 
-KEYS = ["k", "other", "d1/k", "d1/d2/deep", "d3/x"]
+KEYS = ["k", "other", "d1/k", "d1/d2/deep", "d3/x", "k.tmp", "d1/k.tmp", "k~", "k.bak", "k.new"]
 
 
 def make_value(i):
@@ -63,6 +63,10 @@ def _scripts(tier, seed):
         [["d1/k", 2], ["d1/d2/deep", 3], ["d1/k", 9], ["k", 5]],
         [["other", 4], ["k", 2], ["other", 0], ["d3/x", 1], ["k", 8], ["other", 7]],
         [["d3/x", 0], ["d1/d2/deep", 8], ["d3/x", 3], ["d1/d2/deep", 0]],
+        # bystander keys whose names are what a scratch copy of another key's file is commonly called
+        [["k.tmp", 0], ["k", 1], ["k~", 8], ["k", 2]],
+        [["d1/k.tmp", 5], ["d1/k", 1], ["k.bak", 0], ["k.new", 9], ["k", 3]],
+        [["k", 0], ["k.tmp", 1], ["k", 8], [".k.swp", 9], ["k.lock", 0], ["k", 5]],
     ]
     if tier == "quick":
         return fixed
